@@ -32,7 +32,7 @@ var (
 )
 
 const (
-	MaxTasks    = 8
+	MaxTasks    = 64
 	maxSwitches = 1 << 14
 )
 
@@ -494,6 +494,53 @@ func taskMain(i int) {
 
 //go:norace
 func park0(i int) { rawRead(tasks[i].rfd) }
+
+// Go replaces a `go` statement of repository code: the new goroutine becomes
+// one more simulated task, so that the schedule also decides when library
+// goroutines run. Outside a simulation it is a plain go statement.
+func Go(fn func()) {
+	i := spawn(fn)
+	if i < 0 {
+		go fn()
+		return
+	}
+	wg.Add(1)
+	go taskMain(i)
+	Yield(0)
+}
+
+func Go1[A any](f func(A), a A)                       { Go(func() { f(a) }) }
+func Go2[A, B any](f func(A, B), a A, b B)            { Go(func() { f(a, b) }) }
+func Go3[A, B, C any](f func(A, B, C), a A, b B, c C) { Go(func() { f(a, b, c) }) }
+func Go4[A, B, C, D any](f func(A, B, C, D), a A, b B, c C, d D) {
+	Go(func() { f(a, b, c, d) })
+}
+
+// Spawned counts library goroutines turned into tasks.
+var Spawned uint64
+
+//go:norace
+func spawn(fn func()) int {
+	if !active || cur < 0 {
+		return -1
+	}
+	if ntasks >= MaxTasks {
+		os.Stdout.WriteString("SIM-TOO-MANY-GOROUTINES\n")
+		os.Exit(2)
+	}
+	i := ntasks
+	ntasks++
+	Spawned++
+	tasks[i].state = 1
+	tasks[i].parkedSite = -1
+	tasks[i].steps = 0
+	tasks[i].fn = fn
+	tasks[i].policy = tasks[cur].policy
+	tasks[i].ranges = 0
+	tasks[i].prio = int64(splitmix(&rng)>>1) | 1<<40
+	schCur[i] = 0
+	return i
+}
 
 //go:norace
 func finish(i int) {
